@@ -71,6 +71,20 @@ class Spy:
         self.calls = []
 
     def partition(self, arr, ihmax):
+        # The C routine keeps its work arrays and neighbour table in static variables between calls.  One call in two is
+        # therefore preceded, in the same process, by a call on ANOTHER grid shape with the SAME number of bins (the same values
+        # reshaped): what the routine returns for `arr` must not depend on what it was used for before.
+        try:
+            nf, nd = arr.shape
+            if (nf * 31 + nd + int(ihmax)) % 2 == 0:
+                alt = (nd, nf) if nf != nd else ((nf // 2, nd * 2) if nf % 2 == 0 and nf > 2 else None)
+                if alt is not None:
+                    # a grid with another number of bins first, so that the other shape is the one the routine's tables were
+                    # last built for
+                    self.real.partition(np.zeros((3, 5) if nf * nd != 15 else (2, 2), dtype=np.float32), ihmax)
+                    self.real.partition(np.ascontiguousarray(np.asarray(arr, dtype=np.float32).reshape(alt)), ihmax)
+        except Exception:
+            pass
         out = self.real.partition(arr, ihmax)
         self.calls.append(dict(values=np.array(arr, order="C", copy=True), c_contig=bool(arr.flags.c_contiguous),
                                dtype=str(arr.dtype), ihmax=int(ihmax), w=np.array(out, order="C", copy=True)))
